@@ -72,6 +72,12 @@ Definition run_fs (st : option Loaded) (rt : option Routing) (F : fs) (op : stri
         match t_pairs d with Some d => with_fs F t_bool (w_create Ld Rt F cfg s d) | None => pure bad end
     | "w_update", [L cfg; L s; d] =>
         match t_pairs d with Some d => with_fs F t_bool (w_update Ld F cfg s d) | None => pure bad end
+    (* the same with a trailing tag naming the (long-lived) writer object used: a writer has no state of its own *)
+    | "w_create", [L cfg; L s; d; L _] =>
+        match t_pairs d with Some d => with_fs F t_bool (w_create Ld Rt F cfg s d) | None => pure bad end
+    | "w_update", [L cfg; L s; d; L _] =>
+        match t_pairs d with Some d => with_fs F t_bool (w_update Ld F cfg s d) | None => pure bad end
+    | "w_set", [L cfg; L s; L k; L v; L _] => with_fs F t_bool (w_update Ld F cfg s [(k, v)])
     | "sidecar_of", [L cfg; L s] =>
         match (do x <- Sid Ld s; sid_path Ld x (default_cfg Ld cfg)) with
         | Ok (Some p) => pure (L (sidecar Ld p))
